@@ -96,21 +96,30 @@ Fixpoint lookup (k : key) (s : state) : option rec :=
 Fixpoint remove_key (k : key) (s : state) : state :=
   match s with [] => [] | (k', r) :: t => if N.eqb k k' then remove_key k t else (k', r) :: remove_key k t end.
 
+(* close (idle eviction or shutdown) + re-summon: every record goes through ConvertToByte, the
+   V2 chronicler (C01: last write per key wins, deleted keys stay deleted) and LoadFromByte *)
+Definition reload (s : state) : state := map (fun p => (fst p, persist (snd p))) s.
+
 (* API operations.  C05 is indifferent to *what* an operation computes (that is C06): each
    writing operation carries the record it left behind, as observed through Get right after
    it (M2).  Set / Increment* / PatchTreasures / Uint32SlicePush / Uint32SliceDelete are all
-   [OWrite]; Delete (and a claim) is [ODelete]. *)
-Inductive op := OWrite (k : key) (r : rec) | ODelete (k : key).
+   [OWrite]; Delete, ShiftByKeys (and any claim) is [ODelete].  [OReload] is a close +
+   re-summon in the middle of the history (shutdown or idle eviction).  Write ticks of the
+   background writer (which decide whether a record is "on disk", "buffered" or both when the
+   next operation arrives) are deliberately NOT operations: the property is indifferent to
+   them, so the harness places them freely between operations. *)
+Inductive op := OWrite (k : key) (r : rec) | ODelete (k : key) | OReload | OTick.
+(* [OTick]: the background writer flushed its buffer here (observed by the harness: it waited
+   longer than the write interval).  A no-op for the state; it only lets the case checker say
+   which operations fell into one write interval when it classifies a violation. *)
 Definition step (s : state) (o : op) : state :=
   match o with
   | OWrite k r => (k, r) :: remove_key k s
   | ODelete k => remove_key k s
+  | OReload => reload s
+  | OTick => s
   end.
 Definition run (h : list op) : state := fold_left step h [].
-
-(* close (idle eviction or shutdown) + re-summon: every record goes through ConvertToByte, the
-   V2 chronicler (C01: last write per key wins, deleted keys stay deleted) and LoadFromByte *)
-Definition reload (s : state) : state := map (fun p => (fst p, persist (snd p))) s.
 
 Definition seen (s : state) (k : key) : option view := option_map view_of (lookup k s).
 End Persist.
@@ -159,6 +168,25 @@ Definition key_verdict (b a : option view) : N :=
       else if view_eqb wb wa then 0 else 4
   end%N.
 
+(* Classifier for one known resurrection class.  Per key, since the last flush point (tick or
+   reload): stage 0 = nothing relevant yet; 1 = a live, flushed record was deleted (tombstone
+   buffered); 2 = it was re-created in the same write interval (SaveFunction drops the buffered
+   tombstone, the new object has no file pointer); 3 = deleted again (deleteHandler sees "never
+   written" and writes no tombstone).  [live]/[disk]: does the key exist now / at the flush point. *)
+Definition lost_tombstone_stage (k : key) (ops : list op) : N :=
+  let '(_, _, stage) :=
+    fold_left (fun (st : bool * bool * N) (o : op) =>
+      let '(live, disk, stage) := st in
+      match o with
+      | OTick | OReload => (live, live, 0%N)
+      | OWrite k' _ => if N.eqb k k' then (true, disk, if N.eqb stage 1 || N.eqb stage 3 then 2%N else stage) else st
+      | ODelete k' =>
+          if N.eqb k k' then
+            (false, disk, if live && disk && N.eqb stage 0 then 1%N else if live && N.eqb stage 2 then 3%N else stage)
+          else st
+      end) ops (false, false, 0%N) in
+  stage.
+
 Fixpoint first_nz (l : list N) : N :=
   match l with [] => 0%N | x :: t => if N.eqb x 0 then first_nz t else x end.
 
@@ -184,11 +212,21 @@ Definition chk (c : hcase) : N :=
       else if value_eqb (of_content (from_wire fixed (gob_spec (to_content v)))) vout then 0 else 1
   | ReloadCase fixed ops before after ib ia =>
       let o := first_nz (zip_verdicts before after) in
-      if negb (N.eqb o 0) then o
+      if negb (N.eqb o 0) then
+        (* code 8: every existence change of the case is a resurrection of a key that was
+           deleted, re-created and deleted again inside one write interval *)
+        (if N.eqb o 5 &&
+            forallb (fun ba => match snd (fst ba), snd (snd ba) with
+                               | None, Some _ => N.eqb (lost_tombstone_stage (fst (fst ba)) ops) 3
+                               | None, None => true
+                               | Some wb, Some wa => view_eqb wb wa
+                               | Some _, None => false
+                               end) (combine before after)
+         then 8 else o)
       else if negb (list_eqb kv_eqb ib ia) then 6
       else
         (* replay: the history leaves [before]; the model's reload of it is [after] *)
-        let s := run ops in
+        let s := run gob_spec fixed ops in
         let s' := reload gob_spec fixed s in
         if forallb (fun p => oview_eqb (snd p) (seen s (fst p))) before &&
            forallb (fun p => oview_eqb (snd p) (seen s' (fst p))) after &&
